@@ -6,11 +6,14 @@ from hypothesis import strategies as st
 
 from raysect.core import Point3D, Vector3D, translate, rotate_x, rotate_y, rotate_z, rotate_basis
 from raysect.core.workflow import SerialEngine
-from raysect.optical import World, Ray
+from raysect.optical import World, Ray, NumericalIntegrator
+from raysect.primitive import Box, Cylinder, Subtract
 from raysect.optical.observer import SightLine, VectorCamera, FullFrameSampler1D, FullFrameSampler2D
 from raysect.optical.observer.base import Observer1D
 
-from cherab.tools.raytransfer import RayTransferBox, RayTransferCylinder
+from cherab.tools.raytransfer import RayTransferBox, RayTransferCylinder, RayTransferObject
+from cherab.tools.raytransfer import CartesianRayTransferEmitter, CylindricalRayTransferEmitter
+from cherab.tools.raytransfer import CartesianRayTransferIntegrator, CylindricalRayTransferIntegrator
 from cherab.tools.raytransfer import RayTransferPipeline0D, RayTransferPipeline1D, RayTransferPipeline2D
 
 from ..core import Given
@@ -94,13 +97,15 @@ REQUIRED_LABELS = ["box:ray:edge", "box:ray:inside", "box:ray:axis", "box:ray:pl
                    "pipelines:radiance", "pipelines:change:mask", "pipelines:change:map", "pipelines:change:place",
                    "pipelines:change:view", "pipelines:change:kind", "pipelines:change:samples"]
 
+FORTRAN = "C10-fortran-voxel-map"        # open: a Fortran-ordered / transposed voxel_map is rejected and corrupts the object
 AXIS_HOLE = "C10-axis-hole-zero-row"     # open: radius_inner = 0 still gets an inner bounding cylinder of radius 1e-5 dr
 
 PERIODS = [360.0, 180.0, 120.0, 90.0, 72.0, 60.0, 45.0]
 SIZES = [0.05, 0.1, 0.25, 0.5, 1.0, 2.0]
 OFFS = [0.0, 0.0, 0.0, 0.0, 1e-9, -1e-9, 1e-6, -1e-6, 1e-4, -1e-4]
 ANGLES = [0.0, 0.0, 90.0, -90.0, 180.0, 30.0, 45.0, -137.5]
-STEPS = [None, 0.05, 0.1, 0.23, 0.5, 1.0, 1.7]
+STEPS = [None, 0.05, 0.1, 0.23, 0.5, 1.0, 1.7, 6.0]
+MIN_SAMPLES = [2, 2, 2, 3, 5, 40]
 NRAYS = 4
 
 
@@ -193,6 +198,25 @@ def _box_ray(draw, n):
     return {"cls": cls, "a": a, "b": b, "back": 0.0}
 
 
+def _options(draw, ncell):
+    """how the object is built and used: construction path, integrator options, argument forms, re-use, caller-owned data."""
+    forms = ["c64", "c64", "i32", "f64", "strided"] + ([] if is_open(FORTRAN) else ["fortran", "fortran"])
+    reuse = []
+    for _ in range(draw(st.integers(0, 2))):
+        what = draw(st.sampled_from(["vox", "vox", "step", "ms"]))
+        if what == "vox":
+            reuse.append({"vox": _voxels(draw, ncell)})
+        elif what == "step":
+            reuse.append({"step": draw(st.sampled_from(STEPS[1:]))})
+        else:
+            reuse.append({"ms": draw(st.sampled_from([2, 3, 7, 40]))})
+    return {"build": draw(st.sampled_from(["object", "object", "emitter"])),
+            "integ": draw(st.sampled_from(["plain", "plain", "rt.step", "integrator.step", "new"])),
+            "ms": draw(st.sampled_from(MIN_SAMPLES)), "numerical": draw(st.integers(0, 7)) == 0,
+            "form": draw(st.sampled_from(forms)), "scalars": draw(st.sampled_from(["float", "float", "int", "numpy"])),
+            "reuse": reuse, "poke": draw(st.booleans())}
+
+
 @st.composite
 def box_case(draw):
     n = [draw(st.integers(1, 6)) for _ in range(3)]
@@ -200,7 +224,7 @@ def box_case(draw):
     return {"kind": "box", "n": n, "d": d, "step": draw(st.sampled_from(STEPS)), "vox": _voxels(draw, n[0] * n[1] * n[2]),
             "via": draw(st.sampled_from(["ctor", "setter"])), "place": _placement(draw),
             "wl": [draw(_fl(100.0, 900.0)), draw(_fl(0.01, 300.0))],
-            "rays": [draw(_box_ray(n)) for _ in range(NRAYS)]}
+            "rays": [draw(_box_ray(n)) for _ in range(NRAYS)], "opt": _options(draw, n[0] * n[1] * n[2])}
 
 
 @st.composite
@@ -277,7 +301,7 @@ def cyl_case(draw):
             "via": draw(st.sampled_from(["ctor", "setter"])), "place": _placement(draw),
             "wl": [draw(_fl(100.0, 900.0)), draw(_fl(0.01, 300.0))],
             "krot": draw(st.integers(1, 7)),
-            "rays": [draw(_cyl_ray([nr, nphi, nz], nsurf)) for _ in range(NRAYS)]}
+            "rays": [draw(_cyl_ray([nr, nphi, nz], nsurf)) for _ in range(NRAYS)], "opt": _options(draw, nr * nphi * nz)}
     if rmin == 0 and is_open(AXIS_HOLE):
         # known finding: rays that pass the axis closer than 10 radii of the artificial axis hole are taken out
         grid, _, _ = _geometry(case)
@@ -327,7 +351,7 @@ def _voxel_arrays(case, shape):
         vm = -np.ones(shape, dtype=np.int64)
         vm[m] = np.arange(int(m.sum()))
         return vm, (cells.astype(np.int64) if vox.get("int") else m), None
-    return cells, None, cells
+    return cells, None, cells.copy()
 
 
 def _build(cls, args, step_given, step, mask, vmap, via, place):
@@ -349,6 +373,110 @@ def _build(cls, args, step_given, step, mask, vmap, via, place):
         obj.transform = tr
         obj.parent = world
     return world, obj
+
+
+_DEFAULT_OPT = {"build": "object", "integ": "plain", "ms": 2, "numerical": False, "form": "c64", "scalars": "float", "reuse": [], "poke": False}
+
+
+def _form(arr, form):
+    """the same mask / voxel map in another accepted container form (dtype, memory layout)."""
+    if arr is None:
+        return None
+    if form == "i32":
+        return arr.astype(np.int32)
+    if form == "f64":
+        return arr.astype(np.float64)
+    if form == "fortran":
+        return np.asfortranarray(arr)
+    if form == "strided":
+        big = np.zeros(arr.shape[:-1] + (2 * arr.shape[-1],), dtype=arr.dtype)
+        big[..., ::2] = arr
+        return big[..., ::2]
+    return arr
+
+
+def _scalars(args, form):
+    """constructor scalars as Python floats (canonical), Python ints where integer-valued, or numpy scalars."""
+    if form == "float":
+        return dict(args)
+    out = {}
+    for k, v in args.items():
+        if isinstance(v, int):
+            out[k] = np.int64(v) if form == "numpy" else v
+        elif form == "numpy":
+            out[k] = np.float64(v)
+        else:
+            out[k] = int(v) if float(v).is_integer() else v
+    return out
+
+
+def _construct(case, grid, args, step, opt, mask, vmap):
+    """build the object along the path described by opt; returns world, rt (a RayTransferObject)."""
+    box = case["kind"] == "box"
+    world = World()
+    tr = _ray_matrix(case["place"])
+    icls = CartesianRayTransferIntegrator if box else CylindricalRayTransferIntegrator
+    ms, ms_done = opt["ms"], opt["ms"] == 2
+    step_in_ctor = opt["integ"] == "plain" and case["step"] is not None
+    sargs = _scalars(args, opt["scalars"])
+    sstep = step
+    if opt["scalars"] == "int" and float(step).is_integer():
+        sstep = int(step)
+    elif opt["scalars"] == "numpy":
+        sstep = np.float64(step)
+    if opt["build"] == "object":
+        cls = RayTransferBox if box else RayTransferCylinder
+        if case["via"] == "ctor":
+            kw = dict(sargs)
+            if step_in_ctor:
+                kw["step"] = sstep
+            if box and opt["scalars"] != "numpy":        # positional form of the documented signature
+                rt = cls(kw.pop("xmax"), kw.pop("ymax"), kw.pop("zmax"), kw.pop("nx"), kw.pop("ny"), kw.pop("nz"),
+                         mask=mask, voxel_map=vmap, parent=world, transform=tr, **kw)
+            else:
+                rt = cls(mask=mask, voxel_map=vmap, parent=world, transform=tr, **kw)
+        else:
+            rt = cls(**sargs)
+            if vmap is not None:
+                rt.voxel_map = vmap
+            elif mask is not None:
+                rt.mask = mask
+            if step_in_ctor:
+                rt.step = sstep
+            rt.transform = tr
+            rt.parent = world
+    else:
+        integrator = None
+        if step_in_ctor or (opt["integ"] == "plain" and ms != 2):
+            integrator = icls(sstep, ms) if case["via"] == "ctor" else icls(step=sstep, min_samples=ms)
+            ms_done = True
+        shape = tuple(np.int64(v) for v in grid.shape) if opt["scalars"] == "numpy" else tuple(grid.shape)
+        if box:
+            material = CartesianRayTransferEmitter(shape, tuple(grid.d), voxel_map=vmap, mask=mask, integrator=integrator)
+            prim = Box(lower=Point3D(0, 0, 0), upper=Point3D(*grid.upper), material=material)
+        else:
+            material = CylindricalRayTransferEmitter(shape, (grid.dr, grid.dphi, grid.dz), voxel_map=vmap, mask=mask,
+                                                     integrator=integrator, rmin=grid.rmin)
+            outer = Cylinder(grid.r_hi, grid.z_hi)
+            prim = Subtract(outer, Cylinder(grid.r_lo, grid.z_hi), material=material) if grid.r_lo > 0 else outer
+            prim.material = material
+        rt = RayTransferObject(prim)
+        rt.transform = tr
+        rt.parent = world
+    if opt["integ"] == "rt.step":
+        rt.step = sstep
+    elif opt["integ"] == "integrator.step":
+        rt.material.integrator.step = sstep
+    elif opt["integ"] == "new":
+        rt.material.integrator = icls(sstep, min_samples=ms)
+        ms_done = True
+    if not ms_done:
+        rt.material.integrator.min_samples = ms
+    if opt["numerical"]:
+        ni = NumericalIntegrator(step=step, min_samples=ms)
+        ni.step = step                               # the constructor keeps only float32 precision of the step
+        rt.material.integrator = ni
+    return world, rt
 
 
 def _unit(v):
@@ -397,13 +525,13 @@ def _local_ray(case, grid, ray):
     return o, u
 
 
-def _trace(ctx, world, bins, M, o, u, wl):
+def _trace(ctx, world, bins, M, o, u, wl, raw=False):
     ow = M @ np.array([o[0], o[1], o[2], 1.0])
     uw = M[:3, :3] @ np.array(u)
-    return _trace_world(ctx, world, bins, ow, uw, wl)
+    return _trace_world(ctx, world, bins, ow, uw, wl, raw)
 
 
-def _trace_world(ctx, world, bins, ow, uw, wl):
+def _trace_world(ctx, world, bins, ow, uw, wl, raw=False):
     with ctx.cut("trace"):
         ray = Ray(origin=Point3D(float(ow[0]), float(ow[1]), float(ow[2])), direction=Vector3D(float(uw[0]), float(uw[1]), float(uw[2])),
                   min_wavelength=wl[0], max_wavelength=wl[0] + wl[1], bins=bins)
@@ -411,10 +539,10 @@ def _trace_world(ctx, world, bins, ow, uw, wl):
         e = np.array(sp.samples, dtype=float)
     ctx.check(e.shape == (bins,), "trace", lambda: "spectrum has %r samples, bins = %d" % (e.shape, bins))
     ctx.check(bool(np.all(np.isfinite(e))) and bool(np.all(e >= 0)), "trace", lambda: "entries not finite / negative: %r" % (e,))
-    return e
+    return (e, sp.samples) if raw else e
 
 
-def _check_bounds(ctx, e, B, what, lab):
+def _check_bounds(ctx, e, B, what, lab, scheme="midpoint"):
     """statement-level interval relations + the midpoint replica for one traced row."""
     slack = 1e-9 * (1.0 + B.length)
     up = B.hi + np.maximum(2 * B.dtmax, B.tol_hi) + slack
@@ -437,8 +565,8 @@ def _check_bounds(ctx, e, B, what, lab):
         bad = (e > B.sch_hi + slack + B.w_total) | (e < B.sch_lo - slack - B.w_total)
         if np.any(bad):
             s = int(np.nonzero(bad)[0][0])
-            ctx.fail(what + "scheme-midpoint", "source %d: entry %r, but the documented midpoint samples give between %r and %r (dt <= %r)"
-                     % (s, float(e[s]), float(B.sch_lo[s]), float(B.sch_hi[s]), B.dt_all))
+            ctx.fail(what + "scheme-" + scheme, "source %d: entry %r, but the documented %s samples give between %r and %r (dt <= %r)"
+                     % (s, float(e[s]), scheme, float(B.sch_lo[s]), float(B.sch_hi[s]), B.dt_all))
         if lab is not None and B.length > 0:
             ctx.label("scheme-checked")
     elif lab is not None and B.scheme_skip:
@@ -451,61 +579,92 @@ def _check_bounds(ctx, e, B, what, lab):
                 ctx.label("cell:err>2dt")
 
 
+def _apply_vox(rt, mask_f, vmap_f):
+    if vmap_f is not None:
+        rt.voxel_map = vmap_f
+    else:
+        rt.mask = mask_f               # None = all cells, numbered in C order
+
+
 def run(case, ctx):
     kind = case["kind"]
+    opt = dict(_DEFAULT_OPT, **case.get("opt", {}))
     grid, args, step = _geometry(case)
     shape = grid.shape
-    cls = RayTransferBox if kind == "box" else RayTransferCylinder
     vm, mask, vmap = _voxel_arrays(case, shape)
+    mask_f, vmap_f = _form(mask, opt["form"]), _form(vmap, opt["form"])
+    snap = None if (vmap_f if vmap_f is not None else mask_f) is None else np.array(vmap_f if vmap_f is not None else mask_f)
     nbins = int(vm.max()) + 1
+    ms, scheme = opt["ms"], ("trapezium" if opt["numerical"] else "midpoint")
     with ctx.cut("construct"):
-        world, rt = _build(cls, args, case["step"] is not None, step, mask, vmap, case["via"], case["place"])
+        world, rt = _construct(case, grid, args, step, opt, mask_f, vmap_f)
         got_bins, got_map, got_mask, got_step = rt.bins, np.array(rt.voxel_map), np.array(rt.mask), rt.step
         inv = rt.invert_voxel_map()
+        mat = rt.material
+        got_ms = mat.integrator.min_samples
+        geo = [tuple(mat.grid_shape), tuple(mat.grid_steps)] + ([mat.dx, mat.dy, mat.dz] if kind == "box" else
+                                                                [mat.dr, mat.dphi, mat.dz, mat.period, mat.rmin])
     # ---- bookkeeping
-    ctx.check(got_bins == nbins, "bins", lambda: "bins = %r, voxel map has max %d" % (got_bins, nbins - 1))
-    ctx.check(got_map.shape == shape and np.array_equal(got_map, vm), "voxel_map", lambda: "voxel_map differs from the given map / mask numbering")
-    ctx.check(np.array_equal(got_mask, vm >= 0), "mask", "mask is not (voxel_map > -1)")
+    ctx.check(got_bins == nbins and rt.bins == got_bins, "bins", lambda: "bins = %r, voxel map has max %d" % (got_bins, nbins - 1))
+    ctx.check(got_map.shape == shape and np.array_equal(got_map, vm) and got_map.dtype == np.int32, "voxel_map",
+              lambda: "voxel_map differs from the given map / mask numbering (form %s)" % opt["form"])
+    ctx.check(np.array_equal(got_mask, vm >= 0) and np.array_equal(np.array(rt.mask), got_mask), "mask", "mask is not (voxel_map > -1)")
     ctx.close(got_step, step, "step", rtol=1e-12)
+    ctx.check(got_ms == ms, "min_samples", lambda: "integrator.min_samples = %r, set %r" % (got_ms, ms))
     ctx.check(len(inv) == nbins and all(np.array_equal(np.array(inv[s]), np.array(np.where(vm == s))) for s in range(nbins)),
               "invert_voxel_map", "invert_voxel_map() is not the inverse of voxel_map")
+    want_geo = [tuple(shape), tuple(grid.d)] + list(grid.d) if kind == "box" else \
+        [tuple(shape), (grid.dr, grid.dphi, grid.dz), grid.dr, grid.dphi, grid.dz, grid.period, grid.rmin]
+    ctx.check(geo[0] == want_geo[0], "emitter-attributes", lambda: "grid_shape %r != %r" % (geo[0], want_geo[0]))
+    ctx.close(list(geo[1]) + geo[2:], list(want_geo[1]) + want_geo[2:], "emitter-attributes", rtol=1e-12)
     vox = case["vox"]
-    ctx.label(kind, "map:" + (vox.get("sub") or vox["kind"]), "via:" + case["via"], "step:" + ("default" if case["step"] is None else "%g" % case["step"]))
+    ctx.label(kind, "map:" + (vox.get("sub") or vox["kind"]), "via:" + case["via"], "step:" + ("default" if case["step"] is None else "%g" % case["step"]),
+              "build:" + opt["build"], "integ:" + opt["integ"], "ms:%d" % ms, "scheme:" + scheme, "scalars:" + opt["scalars"])
+    if vox["kind"] != "none":
+        ctx.label("form:" + opt["form"])
     if kind == "cyl":
         if shape[1] == 1:
             ctx.label("axisymmetric")
         ctx.label("period<360" if case["period"] < 360 else "period=360", "rmin>0" if case["rmin"] > 0 else "rmin=0")
+    elif len(set(shape)) == 3:
+        ctx.label("shape:nx!=ny!=nz")
     M = CH.rigid(case["place"]["t"], case["place"]["r"])
     # ---- the one-source-per-cell object over the same active cells (for merged maps)
     world_id = None
     if vox.get("sub") == "merge":
         act = vm >= 0
         with ctx.cut("construct"):
-            world_id, rt_id = _build(cls, args, case["step"] is not None, step, act, None, "ctor", case["place"])
+            world_id, rt_id = _construct(case, grid, args, step, dict(opt, form="c64"), act, None)
             bins_id = rt_id.bins
         ident = -np.ones(shape, dtype=np.int64)
         ident[act] = np.arange(int(act.sum()))
         ctx.check(bins_id == int(act.sum()), "bins", lambda: "mask with %d active cells gives bins = %r" % (int(act.sum()), bins_id))
     any_nt = False
+    done = []                       # (o, u, chord, first row, raysect's own samples array of the first trace)
     for ray in case["rays"]:
         if ray.get("excluded_known"):
             ctx.label("excluded_known")
             continue
         o, u = _local_ray(case, grid, ray)
-        e = _trace(ctx, world, nbins, M, o, u, case["wl"])
+        e, raw = _trace(ctx, world, nbins, M, o, u, case["wl"], raw=True)
         ch = CH.chord(grid, o, u)
         ctx.label("ray:" + ray["cls"])
+        if abs(u[2]) == 1.0:
+            ctx.label("ray:z-parallel")
         if ch.origin_on_boundary:
             ctx.label("ray-skipped:origin-on-primitive-surface")      # raysect decides whether the origin is inside
             continue
-        B = CH.bounds(ch, vm, nbins, step)
-        _check_bounds(ctx, e, B, "", kind)
+        B = CH.bounds(ch, vm, nbins, step, min_samples=ms, scheme=scheme)
+        _check_bounds(ctx, e, B, "", kind, scheme)
+        done.append((o, u, ch, e, raw))
         if not ch.segs:
             ctx.label("ray:miss")
         if len(ch.segs) > 1:
             ctx.label("ray:segments>1")
         if ch.ambiguous_segmentation:
             ctx.label("ray:ambiguous-segmentation")
+        if any(CH.step_count(sg["L"], step, ms, scheme) == (ms if scheme == "midpoint" else ms - 1) and sg["L"] > 0 for sg in ch.segs):
+            ctx.label("n=min_samples")
         if world_id is not None:
             e_id = _trace(ctx, world_id, bins_id, M, o, u, case["wl"])
             want = np.zeros(nbins)
@@ -518,13 +677,67 @@ def run(case, ctx):
             o2 = [c * o[0] - s * o[1], s * o[0] + c * o[1], o[2]]
             u2 = [c * u[0] - s * u[1], s * u[0] + c * u[1], u[2]]
             e2 = _trace(ctx, world, nbins, M, o2, u2, case["wl"])
-            _check_bounds(ctx, e2, B, "periodic-", None)
+            _check_bounds(ctx, e2, B, "periodic-", None, scheme)
         fl = ch.flags
         reasons = [k for k in ("edge", "tangent", "starts_inside", "wraps") if fl[k]] + (["masked"] if B.crosses_masked else [])
         if ch.ncells >= 3 and reasons:
             any_nt = True
             ctx.label("ray-nt", *["nt:" + r for r in reasons])
     ctx.nt(any_nt)
+    if not done:
+        return
+    # ---- re-use of the same object: voxel description / step / min_samples changed through the setters between traces
+    vm2, step2, ms2 = vm, step, ms
+    cells = min(grid.d) if kind == "box" else min(grid.dr, grid.dz)
+    for k, chg in enumerate(opt["reuse"]):
+        with ctx.cut("reconfigure"):
+            if "vox" in chg:
+                vm2, m2, v2 = _voxel_arrays(dict(case, vox=chg["vox"]), shape)
+                _apply_vox(rt, _form(m2, opt["form"]), _form(v2, opt["form"]))
+                ctx.label("reuse:" + ("voxel_map" if v2 is not None else "mask"))
+            elif "step" in chg:
+                step2 = chg["step"] * cells
+                if k % 2:
+                    rt.step = step2
+                else:
+                    rt.material.integrator.step = step2
+                ctx.label("reuse:step")
+            else:
+                ms2 = chg["ms"]
+                rt.material.integrator.min_samples = ms2
+                ctx.label("reuse:min_samples")
+            bins2, map2, stp2 = rt.bins, np.array(rt.voxel_map), rt.step
+        nb2 = int(vm2.max()) + 1
+        ctx.check(bins2 == nb2 and np.array_equal(map2, vm2), "reuse-bookkeeping", lambda: "after the change: bins %r (expected %d) / voxel_map differs"
+                  % (bins2, nb2))
+        ctx.close(stp2, step2, "reuse-bookkeeping", rtol=1e-12)
+        for (o, u, ch, _, _) in done[:2]:
+            e = _trace(ctx, world, nb2, M, o, u, case["wl"])
+            _check_bounds(ctx, e, CH.bounds(ch, vm2, nb2, step2, min_samples=ms2, scheme=scheme), "reuse-", None, scheme)
+    # ---- back to the first configuration: the first row must come back bit for bit; rows handed out earlier are intact
+    o, u, ch, e0, raw0 = done[0]
+    if opt["reuse"]:
+        with ctx.cut("reconfigure"):
+            _apply_vox(rt, mask_f, vmap_f)
+            rt.step = step
+            rt.material.integrator.min_samples = ms
+    e = _trace(ctx, world, nbins, M, o, u, case["wl"])
+    ctx.check(np.array_equal(e, e0), "repeat", lambda: "the first ray traced again in the first configuration gives a different row: max diff %r"
+              % float(np.abs(e - e0).max()))
+    ctx.check(all(np.array_equal(np.array(r), ee) for (_, _, _, ee, r) in done), "repeat", "a spectrum returned by an earlier trace was modified later")
+    ctx.label("repeat")
+    # ---- caller-owned arrays
+    arr = vmap_f if vmap_f is not None else mask_f
+    if arr is not None:
+        ctx.check(arr.dtype == snap.dtype and np.array_equal(arr, snap), "caller-data", "the mask / voxel_map array passed in was modified")
+        if opt["poke"]:
+            arr[...] = (snap == 0) if vmap_f is None else np.where(snap >= 0, -1, 0)
+            with ctx.cut("construct"):
+                map3, bins3 = np.array(rt.voxel_map), rt.bins
+            ctx.check(bins3 == nbins and np.array_equal(map3, vm), "caller-data", "modifying the caller's array afterwards changed the object's voxel_map / bins")
+            e = _trace(ctx, world, nbins, M, o, u, case["wl"])
+            ctx.check(np.array_equal(e, e0), "caller-data", "modifying the caller's array afterwards changed the traced row")
+            ctx.label("caller:poke")
 
 
 # ------------------------------------------------------------------------------------------------ pipelines
